@@ -15,17 +15,17 @@ def _gen(ctx, gopkg):
 
 def run(ctx):
     q = ctx.tier == "quick"
-    n_salt, n_prov, n_leg, n_ks = (900, 450, 450, 250) if q else (20000, 8000, 8000, 4000)
+    n_salt, n_prov, n_leg, n_ks = (600, 300, 300, 150) if q else (20000, 8000, 8000, 4000)
     hdr = HDR.format(imports="lib.TokSplit model.C19_model model.C19_run")
 
     def stages(ctx, mult, suffix, off):
-        def st(name, pkg, gopkg, f, test, n, pam=False, shard=60):
+        def st(name, pkg, gopkg, f, test, n, pam=False, shard=50):
             ctx.stage(name + suffix, pkg, gopkg, ["C19/" + f], test, n * mult, hdr, seed_offset=off, shard=shard, pam=pam,
                       replace={pkg + "/zz_verif_c19gen_test.go": _gen(ctx, gopkg)}, env={"VERIF_STAGE": name + suffix})
-        st("c19salt", "sdk/go/auth", "auth", "zz_verif_c19salt_test.go", "TestVerifC19Salt$", n_salt, shard=120)
+        st("c19salt", "sdk/go/auth", "auth", "zz_verif_c19salt_test.go", "TestVerifC19Salt$", n_salt, shard=100)
         st("c19prov", "lib/controller/federation", "federation", "zz_verif_c19prov_test.go", "TestVerifC19Prov$", n_prov, pam=True)
         st("c19legacy", "lib/controller", "controller", "zz_verif_c19legacy_test.go", "TestVerifC19Legacy$", n_leg, pam=True)
-        st("c19ks", "services/keepstore", "main", "zz_verif_c19ks_test.go", "TestVerifC19KS$", n_ks)
+        st("c19ks", "services/keepstore", "main", "zz_verif_c19ks_test.go", "TestVerifC19KS$", n_ks, shard=75)
     return standard(ctx, "C19", ["model/C19_run.vo"], stages, known_bits={4: "F6b", 8: "F6b"},
                     rule="token strings of every shape (v2 with secrets of length 0-60 incl. every length 38-42 hex and non-hex, extra path "
                          "segments, malformed v2, legacy 41+ characters, near-legacy, JWT-like, random bytes) x remote ids; provider with 0-4 "
